@@ -137,7 +137,13 @@ class Unquoter:
             # verbatim slice of the input
             if a[0] == "sub" and a[1] == ("param", "val") and a[2][0] == "slice":
                 site["cls"] = "VERBATIM"
-                ctx.ob(rule, self.qual, cons, True, where=w, sample="verbatim slice of the input", nontrivial=False)
+                # a run of escapes that could not be decoded is copied as it stands: the copy ends where the scan stands (or
+                # at the end of the input) and its length is three characters per pending byte - it depends on the number of
+                # buffered bytes only, never on the position or on the length of the input
+                why = self._verbatim_length(a[2], st)
+                ctx.ob(rule, self.qual, cons, why is None,
+                       f"a verbatim copy of undecodable escapes has a length that is not 3 x (pending bytes): {why}; text before "
+                       "the escapes would be repeated, or text after them swallowed", w, sample="length = 3 x pending bytes")
             elif self.is_decoded(a):
                 site["cls"] = "DECODED"
                 f_unsafe = self._in(st, a, "unsafe")
@@ -200,6 +206,75 @@ class Unquoter:
         self._progress()
         self._read_bounds()
         self._escape_syntax()
+
+    def _verbatim_length(self, sl, st):
+        """None when hi - lo of the slice is a linear form over 'pending byte' counts only (coefficients and constant multiples
+        of 3, nothing left that mentions the scan index or the input length), else a description of what is wrong."""
+        LEN = ("<len>",)
+
+        def is_len(t):
+            return t == ("param", "length") or (t[0] == "call" and callee_name(t) in ("len", "PyUnicode_GET_LENGTH") and
+                                                  t[2] == (("param", "val"),))
+
+        def linform(t):
+            if t[0] == "const" and isinstance(t[1], int) and not isinstance(t[1], bool):
+                return {}, t[1]
+            if is_len(t):
+                return {LEN: 1}, 0
+            if t[0] == "unop" and t[1] == "USub":
+                f = linform(t[2])
+                return None if f is None else ({k: -v for k, v in f[0].items()}, -f[1])
+            if t[0] == "binop" and t[1] in ("Add", "Sub"):
+                a_, b_ = linform(t[2]), linform(t[3])
+                if a_ is None or b_ is None:
+                    return None
+                sg = 1 if t[1] == "Add" else -1
+                d = dict(a_[0])
+                for k, v in b_[0].items():
+                    d[k] = d.get(k, 0) + sg * v
+                return {k: v for k, v in d.items() if v}, a_[1] + sg * b_[1]
+            if t[0] == "binop" and t[1] == "Mult":
+                a_, b_ = linform(t[2]), linform(t[3])
+                if a_ is None or b_ is None:
+                    return None
+                if not a_[0]:
+                    return {k: v * a_[1] for k, v in b_[0].items() if v * a_[1]}, a_[1] * b_[1]
+                if not b_[0]:
+                    return {k: v * b_[1] for k, v in a_[0].items() if v * b_[1]}, a_[1] * b_[1]
+                return None
+            return {t: 1}, 0
+        lo, hi, step = sl[1], sl[2], sl[3]
+        if step != NONE:
+            return "the slice has a step"
+        flo = ({}, 0) if lo == NONE else linform(lo)
+        fhi = ({LEN: 1}, 0) if hi == NONE else linform(hi)
+        if flo is None or fhi is None:
+            raise AnalysisError(f"{self.qual}: bounds of a verbatim slice are not linear ({show(lo)[:40]} : {show(hi)[:40]}): unknown idiom")
+        # a bound that is minus something (val[-3 * n:]) counts from the end
+        for f_ in (flo, fhi):
+            if (f_[0] or f_[1]) and all(v < 0 for v in f_[0].values()) and f_[1] <= 0 and LEN not in f_[0]:
+                f_[0][LEN] = 1
+        d = dict(fhi[0])
+        for k, v in flo[0].items():
+            d[k] = d.get(k, 0) - v
+        d = {k: v for k, v in d.items() if v}
+        c = fhi[1] - flo[1]
+        positional = [k for k in d if k == LEN or any(x[0] == "phi" and self._is_scan_index(x) for x in walk(k)) or self.is_unit(k)]
+        if positional:
+            return f"it varies with {[show(k)[:30] if k != LEN else 'the length of the input' for k in positional]}"
+        if any(v % 3 for v in d.values()) or c % 3:
+            return f"{ {show(k)[:30]: v for k, v in d.items()} } + {c} is not a multiple of three"
+        return None
+
+    def _is_scan_index(self, phi):
+        """Is this loop-carried variable the scan index (the one the input is read at)?"""
+        for e in self.r.events:
+            v = e.data.get("value") if e.kind in ("sub", "call") else None
+            if v is not None and self.is_unit(v):
+                ix = v[2] if v[0] == "sub" else v[2][2]
+                if any(x == phi for x in walk(ix)):
+                    return True
+        return False
 
     def _in(self, st, a, param):
         """Truth of `a in <the constructor's `param` string>`: asked directly, or through a string the constructor built by
